@@ -27,7 +27,7 @@ CLAIMS = {
         note="QNAMEs: root, 'a.', two one-octet labels with fully symbolic octets; longer QNAMEs rely on the writer/name harnesses (C12, C14).",
         ref="DESIGN.md A4.1, B-C03"),
     "C04": dict(
-        text="Bounded: response length never exceeds the negotiated UDP limit (512 without EDNS; advertised size clamped to [512, server size] with EDNS) in every server_small shape, for the advertised sizes and server sizes listed in the note; TC is never set in these shapes.",
+        text="Bounded: (a) through Server::handle_message: response length never exceeds the negotiated UDP limit (512 without EDNS; advertised size clamped to [512, server size] with EDNS) in every server_small shape, for the advertised sizes and server sizes listed in the note; (b) through handle_non_axfr_query with a 64-octet buffer and the writer limit swept over every value 19..=64 (one concrete run per limit, data symbolic): when the complete answer does not fit, UDP sets TC with empty answer/authority/additional sections and TCP answers SERVFAIL with TC clear; when it fits the response is complete; optional additional records may be dropped without TC but in-bailiwick referral glue never silently (Found, negative, MX, referral with A / AAAA / both glue, two NS).",
         note="Advertised sizes are concrete boundary values {0, 513, 4096, 65535} against server sizes {512, 520} (a symbolic size makes the writer limit symbolic and CBMC ran out of memory > 26 GB). TCP at handle_message level needs a 65535-octet buffer, which exhausts CBMC (18 GB+); truncation/TC behaviour is decided by the query family at handle_non_axfr_query level. The UDP-vs-TCP response comparison is not claimed.",
         ref="DESIGN.md A4.1, B-C04"),
     "C07": dict(
@@ -110,6 +110,10 @@ CLAIMS = {
         text="Bounded, partial: RrsetList add/lookup/iter against a reference for three adds (types TXT,A,TXT quick; A,A,TXT and AAAA,TXT,A thorough) with TTL any u32 and RDATA any 2 octets: TtlMismatch iff an RRset of that type exists with another (RFC 2181-normalised) TTL, a rejected add changes nothing, each type yielded once, RDATA de-duplicated in insertion order; HashMapTreeZone::add rejections: owners outside the zone -> NotInZone, owners inside with a different class -> ClassMismatch, lookups unchanged afterwards; accepted adds at the apex (thorough).",
         note="NOT covered (measured): adds that create nodes (get_or_create_descendant under the HashMap model: out of 14 GB in every variant), empty non-terminals, iteration (iter_by_node / iter_by_rrset, soa()/ns() vs iteration: 25 min symex without finishing). The 'iterating a zone yields every node once' half of the property is therefore not decided.",
         ref="DESIGN.md A4.2, B-C20"),
+    "C05": dict(
+        text="Bounded, compositional (answer assembly GIVEN the outcomes of zone lookups, mock zone M1): the real handle_non_axfr_query / answer / answer_any / do_cname / follow_cname_1,2 / do_referral / do_additional_section_processing / add_additional_addresses / add_negative_caching_soa and the real Writer (with its compressor) on a hand-built Context (concrete request read by the real Reader, 64-octet response buffer) against a scripted mock zone whose outcome kinds are concrete per scenario and whose data are symbolic (RRset TTLs, A/AAAA/TXT/MX/SRV octets, SOA TTL and MINIMUM as full u32): RCODE, AA and the three sections (decoded by the independent decoder, compared as multisets, names decompressed case-insensitively) equal a reference written from RFC 1034 4.3.2, RFC 6604, RFC 2308 3, RFC 2181 for: Found (A, 2 RDATA, MX/NS/SRV with additional addresses), NoRecords / NxDomain with SOA TTL = min(SOA TTL, MINIMUM) for all u32 pairs, zones without SOA or with malformed SOA/MX/CNAME/NS RDATA (SERVFAIL), CNAME to Found / NxDomain / NoRecords / out of zone / referral, chains of 2, loops of 1 and 2 (SERVFAIL), referrals with in-bailiwick, sibling-cut and out-of-bailiwick name servers (search_below_cuts asserted by the mock), ANY with 0/1/2 RRsets.",
+        note="What the real zone store returns for a given zone is C06's obligation; zone selection is C07's. Names have at most 3 one-octet labels; responses <= 64 octets. NOT covered (measured): CNAME chains longer than 2 links incl. the 8-link limit (35 min / 7 GB, Name == on heap names is a symbolic branch), ANY answered by a referral (1800 s / 9 GB), non-IN classes, mixed-case names. Stubs: scripted mock zone (asserts name and options of every lookup, in call order), N1 (Name::eq_or_subdomain_of as a wire-suffix model, proven equal on the pairs used by c05_subdomain_model), TSIG signing functions replaced by unreachable panics.",
+        ref="DESIGN.md A4.2, B-C05"),
 }
 
 GENERIC = dict(
